@@ -30,7 +30,10 @@ import math
 
 import numpy as np
 
+from . import c04_r6
+
 LEVEL = "proof"
+EXTRA_PROPS = ["QuantemModel.Props.C04Ext"]   # growth 6: half-set masks (split + bf context + recombination, end to end)
 MANIFEST_ENTRY = {
     "category": "proof",
     "text": "Lean 4 theorems over an executable model of DirectPtychography.reconstruct: the streaming skeleton "
@@ -558,6 +561,16 @@ def run_problem(ctx, drv, case):
             ctx.pred_fail(f"batch-{kernel}", f"corrected_stack depends on max_batch_size ({b} vs {n})", dict(case, b=b),
                           observed={"rel_diff": e, "b": b, **summarize(impl[b])}, required=summarize(ref))
             break
+    # max_batch_size beyond num_bf (one more; more than twice): one batch, same result
+    for b in (n + 1, 2 * n + 3):
+        over_b = recon(dp, case, bf_mask=submask, b=b).reshape(n, -1)
+        ctx.count()
+        ok, e = close(over_b, ref, TOL_BATCH * cond, floor)
+        ctx.stat_max("batch_invariance_rel_over_cond", e / cond)
+        if not ok:
+            ctx.pred_fail(f"batch-{kernel}", f"corrected_stack depends on max_batch_size ({b} > num_bf = {n})", dict(case, b=b),
+                          observed={"rel_diff": e, "b": b, **summarize(over_b)}, required=summarize(ref))
+            break
     ok, e = close(stack_b1.reshape(n, -1), impl[1], TOL_BATCH * cond, floor)
     ctx.stat_max("repeat_call_rel", e)
     if not ok:
@@ -983,6 +996,8 @@ def run_parallax(ctx, drv, case, stack, tag):
         # C10 = t*sx/(lam*rs): every geometric shift is a whole number of scan pixels
         pc["sy"] = pc["sx"]
         pc["rot"] = 0.0 if pr["rot"] == 0.0 or abs(pr["rot"]) < 1.5 else math.pi / 2
+        if "rot_exact" in pr:       # round-6 fixed cases: any multiple of pi/2 (all four orientations, beyond +-pi)
+            pc["rot"] = pr["rot_exact"]
         pc["ab"] = {"C10": pr["t"] * pc["sx"] / (lam * case["rs"])}
     elif kind == "defocus":
         pc["ab"] = {"defocus": float(np.float32((0.3 + 0.5 * abs(math.sin(case["idx"] + 1))) * 4.0 * lam / (amax * amax)))}
@@ -1914,6 +1929,7 @@ def run(ctx):
             guarded(ctx, case, run_problem, ctx, drv, case)
         run_histories(ctx, drv, ctx.rng.fork(997))
         run_repr_cases(ctx, ctx.rng.fork(996))
+        c04_r6.run(ctx, drv)       # growth round 6: fixed blocks (quadrants, H != W, two live objects, half-sets, num_bf > 255)
     finally:
         drv.close()
 
@@ -1927,7 +1943,11 @@ def replay(ctx, rep):
         return True
     drv = Driver("C04")
     try:
-        if "alias_name" in case or "name" in case:
+        if "r6_session" in case:
+            c04_r6.run_sessions(ctx, drv)
+        elif "r6_large" in case:
+            c04_r6.run_large(ctx)
+        elif "alias_name" in case or "name" in case:
             run_aliases(ctx, drv, _rng(0))
         elif "defaults_case" in case:
             run_defaults(ctx, _rng(0).fork(995))
